@@ -316,12 +316,14 @@ def setModel (a : Arr) (ix : Index) (v : Val) : Except Err Arr :=
     else if !equalBonds a.bonds x.bonds then .error .valueError
     else match ix with
       | .int i =>
-        match normInt a.coord.length i with
+        -- a stack with boxes refuses an array without box (checked before anything is written);
+        -- a stack without boxes ignores the array's box
+        if a.box.isSome && !x.box.isSome then .error .valueError
+        else match normInt a.coord.length i with
         | .error e => .error e
         | .ok m =>
-          if a.box.isSome != x.box.isSome then .error unmodelled
-          else .ok { a with coord := replaceAt a.coord m (x.coord.getD 0 [])
-                            box := a.box.map (fun b => replaceAt b m ((x.box.getD []).getD 0 0)) }
+          .ok { a with coord := replaceAt a.coord m (x.coord.getD 0 [])
+                       box := a.box.map (fun b => replaceAt b m ((x.box.getD []).getD 0 0)) }
       | _ => .error .typeError
   | _ => .error .valueError
 
@@ -453,6 +455,10 @@ def repeatArr (a : Arr) (k : Nat) (toks : List Tok) : Except Err Arr :=
                       coord := repCoord a.n k a.coord.length toks
                       bonds := bonds }
 
+/-- a box whose number of models differs from the coordinates: refused by a stack (`ValueError`); for an atom
+array the protocol cannot express it -/
+def boxErr (stack : Bool) : Err := if stack then .valueError else unmodelled
+
 def boxDepthBad (box : Option (List Tok)) (d : Nat) : Bool :=
   match box with | some b => b.length != d | none => false
 
@@ -462,7 +468,7 @@ def bondsBad (n : Nat) (bonds : Option (List Bond)) : Bool :=
 /-- `from_template(template, coord, box)`; a box whose depth differs is accepted by the code and not modelled -/
 def fromTemplate (a : Arr) (coord : List (List Tok)) (box : Option (List Tok)) : Except Err Arr :=
   if !(coord.all (fun c => c.length == a.n)) then .error .valueError
-  else if boxDepthBad box coord.length then .error unmodelled
+  else if boxDepthBad box coord.length then .error .valueError
   else .ok { a with stack := true, coord := coord, box := box }
 
 /-! ### annotation edits and attribute setters -/
@@ -480,11 +486,11 @@ def delAnnotation (a : Arr) (k : String) : Except Err Arr :=
 def setCoord (a : Arr) (coord : List (List Tok)) : Except Err Arr :=
   if !a.stack && coord.length != 1 then .error unmodelled
   else if !(coord.all (fun c => c.length == a.n)) then .error .valueError
-  else if a.box.isSome && coord.length != a.coord.length then .error unmodelled
+  else if a.box.isSome && coord.length != a.coord.length then .error .valueError    -- the box would keep its depth
   else .ok { a with coord := coord }
 
 def setBox (a : Arr) (box : Option (List Tok)) : Except Err Arr :=
-  if boxDepthBad box a.coord.length then .error unmodelled
+  if boxDepthBad box a.coord.length then .error (boxErr a.stack)
   else .ok { a with box := box }
 
 def bondsValid (n : Nat) (bs : List Bond) : Bool := bs.all (fun b => b.1 < b.2.1 && b.2.1 < n)
@@ -500,7 +506,7 @@ def mkNew (stack : Bool) (n : Nat) (cols : List (String × List Tok)) (coord : L
     (box : Option (List Tok)) (bonds : Option (List Bond)) : Except Err Arr :=
   if !(cols.all (fun p => p.2.length == n)) || !(coord.all (fun c => c.length == n)) then .error unmodelled
   else if !stack && coord.length != 1 then .error unmodelled
-  else if boxDepthBad box coord.length then .error unmodelled
+  else if boxDepthBad box coord.length then .error (boxErr stack)
   else if bondsBad n bonds then .error unmodelled
   else .ok { stack := stack, n := n
              annot := cols.foldl (fun d p => insert p.1 p.2 d) (mandCols n)
